@@ -168,7 +168,41 @@ def extra_checks(tier, seed):
     else:
         out.append(('hierarchical_may', True, detail, {}))
     out.append(async_flat_stream(tier, seed))
+    out.append(async_hsm_stream(tier, seed))
     return out
+
+
+def async_hsm_stream(tier, seed):
+    """the asyncio hierarchical classes (their own copy of _can_trigger / _can_trigger_nested): (may_trigger; trigger)
+    pairs on nested / parallel configurations with suspending coroutine callbacks, callback lists trimmed to one
+    entry, against the Coq hierarchical engine"""
+    import hsm
+    import framework as F
+    n = 300 if tier == 'quick' else 8000
+    cases = []
+    for i in range(n):
+        rng = random.Random('C12ah-%d-%d' % (seed, i))
+        c = hsm.trim_lists(hsm.gen_case(rng, hist_len=1, p_parallel=0.35, single_scope=(i % 3 != 0), p_enum=0.15))
+        c['env'] = dict(default=c['env']['default'], bypos={}, bycb={k: v for k, v in c['env']['bycb'].items() if v[1] is None})
+        ne = 1 + max([e for e, _ in c['machine']['events']] + [e for _, d in hsm.all_defs(c['machine']) for e, _ in d['events']] + [0])
+        hist = []
+        for j in range(rng.randint(1, 4)):
+            e = rng.randrange(ne)
+            hist.append((1, e, 100 + 2 * j))
+            hist.append((0, e, 101 + 2 * j))
+        c['history'] = hist
+        c['cls'] = ['HierarchicalAsyncMachine', 'HierarchicalAsyncGraphMachine'][i % 2]
+        cases.append(c)
+    mo = F.run_model(3, [hsm.enc_case(c) for c in cases])
+    io = F.run_impl('hsm', 'impl_hsm_async', cases)
+    bad = [(c, m, i) for c, m, i in zip(cases, mo, io) if m != i]
+    may_true = sum(1 for m in mo if isinstance(m, list) and m[0] == 1 for j, st in enumerate(m[2]) if j % 2 == 0 and st[1] == [0, True])
+    detail = dict(cases=len(cases), disagreements=len(bad), may_true=may_true)
+    if bad:
+        c, m, i = bad[0]
+        return ('async_hierarchical_may', False, detail,
+                dict(kind='counterexample', stream='asyncio hierarchical classes', case=c, model_obs=m, impl_obs=i))
+    return ('async_hierarchical_may', True, detail, {})
 
 
 def async_flat_stream(tier, seed):
